@@ -42,7 +42,7 @@ def strip_ref(t):
 
 
 COLL_TYPES = ('alloc::vec::Vec', '[', 'core::slice::', 'alloc::collections::', 'std::collections::', 'core::iter::', 'core::ops::range::', 'alloc::vec::')
-IDENTITY_METHODS = {'iter', 'iter_mut', 'into_iter', 'as_slice', 'to_vec', 'clone', 'cloned', 'copied', 'by_ref', 'rev', 'peekable', 'collect', 'unwrap',
+IDENTITY_METHODS = {'to_le_bytes', 'to_be_bytes', 'to_ne_bytes', 'iter', 'iter_mut', 'into_iter', 'as_slice', 'to_vec', 'clone', 'cloned', 'copied', 'by_ref', 'rev', 'peekable', 'collect', 'unwrap',
                     'expect', 'as_ref', 'as_mut', 'borrow', 'borrow_mut', 'to_owned', 'into', 'deref', 'as_mut_slice', 'into_values', 'values', 'skip_while',
                     'take_while', 'ok', 'unwrap_or_default', 'into_par_iter', 'par_iter', 'par_iter_mut'}
 
@@ -390,7 +390,51 @@ class _Frame:
             return seq([c, a]), va
         a, va = self.ex(n['a'])
         b, vb = self.ex(n['b']) if 'b' in n else (EPS, None)
+        if tail_is_err(n['a']):
+            a = seq([a, ('abort',)])
+        if 'b' in n and tail_is_err(n['b']):
+            b = seq([b, ('abort',)])
         return seq([c, self.alt(key, [a, b])]), (va if va is not None else vb)
+
+    def enum_branches(self, n, arms):
+        """for a match on a workspace enum with plain variant patterns: one branch per variant, in declaration order"""
+        adt = hirq.ty_adt(n.get('st'))
+        a = self.x.w.adt(adt, required=False) if adt else None
+        if a is None or a.get('kind') != 'Enum':
+            return None
+        variants = [v['name'] for v in a['variants']]
+        per = {}
+        for arm, t in zip(n['arms'], arms):
+            if 'guard' in arm:
+                return None
+            vs = self.arm_variants(arm['pat'])
+            if vs is None:
+                return None
+            if vs == '*':
+                vs = [v for v in variants if v not in per]
+            for v in vs:
+                per.setdefault(v, t)
+        if set(per) != set(variants):
+            return None
+        return 'match ' + short(adt), [per[v] for v in variants]
+
+    def arm_variants(self, p):
+        k = p.get('k')
+        if k in ('wild',) or (k == 'bind' and 'sub' not in p):
+            return '*'
+        if k == 'ref':
+            return self.arm_variants(p['sub'])
+        if k in ('path', 'ts', 'struct') and p.get('dk') == 'Variant':
+            return [(p.get('p') or '').rsplit('::', 1)[-1]]
+        if k == 'or':
+            out = []
+            for s_ in p.get('subs', []):
+                r = self.arm_variants(s_)
+                if r is None or r == '*':
+                    return None
+                out += r
+            return out
+        return None
 
     def ex_match(self, n):
         s, sv = self.ex(n['e'])
@@ -399,10 +443,24 @@ class _Frame:
             bind_pat(self.env, a['pat'], sv)
             g, _ = self.ex(a['guard']) if 'guard' in a else (EPS, None)
             b, v = self.ex(a['body'])
+            if tail_is_err(a['body']):
+                b = seq([b, ('abort',)])
             arms.append(seq([g, b])); vals.append(v)
         key = 'match ' + self.cond_key(n['e']) + ' {' + '; '.join(pat_str(a['pat']) for a in n['arms']) + '}'
         v = next((x for x in vals if x is not None), None)
+        eb = self.enum_branches(n, arms)
+        if eb is not None:
+            return seq([s, self.alt_all(eb[0], eb[1])]), v
         return seq([s, self.alt(key, arms)]), v
+
+    def alt_all(self, key, branches):
+        """n-ary alternative over all variants of an enum: keep every branch (aborting ones become empty)"""
+        bs = [EPS if ends_with(b, 'abort') and False else b for b in branches]
+        if all(is_eps(b) for b in bs):
+            return EPS
+        if all(b == bs[0] for b in bs):
+            return bs[0]
+        return ('alt', key, bs)
 
     def ex_for(self, n):
         head, hv = self.ex(n['iter'])
@@ -480,7 +538,8 @@ class _Frame:
         allargs = ([recv] if recv is not None else []) + list(args)
         # ---- primitive operation on the carrier
         prim = x.v.prims.get(cd) or x.v.prims.get(c)
-        if prim and any(x.mentions_carrier(a, f) for a in allargs):
+        free = getattr(x.v, 'free_prims', ())
+        if prim and (any(x.mentions_carrier(a, f) for a in allargs) or cd in free or c in free):
             pre, vals = [], []
             for a in allargs:
                 t, v = self.ex(a)
@@ -494,6 +553,9 @@ class _Frame:
                 return seq(pre + [('loop', dom, ('op', 'read', item_fn(n), loc))]), ('coll', dom, None)
             it = item_fn(n)
             val = next((v for v in vals if v is not None and v[0] == 'len'), None)
+            if kind == 'conv':
+                rv_ = ('len', ('read', loc))
+                return seq(pre + [('op', kind, it, loc, rv_)]), rv_
             if kind in ('read',) and strip_ref(it) in ('u8', 'u16', 'u32', 'u64', 'usize'):
                 # an integer read from the stream: a fresh symbolic length
                 rv_ = ('len', ('read', loc))
@@ -751,6 +813,14 @@ class _Frame:
             if x.get('k') == 'if':
                 return self.render(x['c'])
         return self.render(b)
+
+
+def tail_is_err(n):
+    """the value of this branch is a literal `Err(..)` (error exit of a Result-returning function)"""
+    n = peel(n)
+    while n.get('k') == 'block' and 'e' in n:
+        n = peel(n['e'])
+    return n.get('k') == 'call' and n.get('dk') == 'Ctor' and norm(n.get('f', '')).endswith('Result::Err')
 
 
 def chain_dom(a, b):
